@@ -209,8 +209,6 @@ def judge(ctx, case, rng):
 
     shape, raw, order = case["shape"], case["raw"], case["order"]
     S = G.build_model(shape)
-    default_order = [FS.STRICT, FS.EXTRACTION, FS.LENIENT, FS.REPAIR]
-    eff = list(order) if order else default_order
     for lb in case["labels"]:
         ctx.count("op:" + lb)
     ctx.count("order:" + ("default" if not order else "len%d" % len(order)))
@@ -240,6 +238,7 @@ def judge(ctx, case, rng):
 
     # ---- run the real code
     ch, per_call = mk()
+    eff = list(order) if order else list(ch.strategies)     # "default" = whatever order the instance documents
     enh, err1 = _call(ctx, case, "fold_enhanced", lambda: ch.fold_enhanced(raw, S, per_call) if per_call else ch.fold_enhanced(raw, S))
     stats_e = ch.get_statistics()
     n_mis_e = len(misfolds)
